@@ -14,6 +14,8 @@ LEVEL = 'exploration'
 BUDGET = {'quick': 60, 'thorough': 600}
 # deterministic sub-checks repeated in a `python -O` child (core.optimized_child)
 OPT_SUBS = ('sweep',)
+# documented call interface the generated calls rely on (vcheck/callstyle.py)
+INTERFACE = [('oslo_utils.imageutils.format_inspector', None)]
 RULE = ('well-formed images of the ten formats built from their layouts with '
         'the declared size drawn over the whole field range (0, 1, 2^k+-1, '
         '2^32+-1, 2^63, 2^64-1, random; ISO: u32 blocks x u16 block size; '
@@ -285,6 +287,12 @@ def size_sweep(col, fmt):
                 cases.append(dict(blocks=v & 0xffffffff, block_size=bs))
         elif fmt == 'vmdk':
             cases = [dict(capacity=v), dict(capacity=v, footer=True)]
+            for ef in (False, True):
+                for fn in (False, True):
+                    for tl in (False, True):
+                        cases.append(dict(capacity=v, exact_fill=ef,
+                                          final_newline=fn, type_last=tl,
+                                          footer=bool(v & 1)))
         elif fmt == 'luks':
             cases = [dict(payload_offset=v % 64, payload=v % 5000)]
         elif fmt in ('raw', 'gpt'):
